@@ -70,7 +70,7 @@ ASSUMPTIONS = [
 FLOORS = {"quick": {"oracle.atom-count": 50000, "multiframe.frame-equals-single": 8000, "residue.sum-of-atoms": 25000,
                     "subset.kept-bit-identical": 7000, "subset.residue": 4000, "subset.unselected-minus-one": 500,
                     "mapping": 3500, "analytic.isolated": 1000, "analytic.two-sphere": 800, "radii.metamorphic": 500}}
-NCASES = {"quick": 1600, "thorough": 10000}
+NCASES = {"quick": 3200, "thorough": 10000}
 KINDS = ["cluster", "cluster", "cluster", "cluster", "protein", "isolated", "two", "cluster"]
 NPOINTS = [1, 2, 10, 100, 960]
 TEAMS = [1, 2, 3, 5, 8]
